@@ -48,7 +48,7 @@ func writeManifest() {
 			Replay:     "/verif/bin/decverif -replay {path}",
 			Engine:     "decverif",
 			Level: level{Category: "other",
-				Text:      "Static analysis of /repo's current source decides structural clauses that are necessary for the property, for every path/call site/operand class rather than for sampled inputs. Decided: " + p.Decided + " Not decided: " + p.NotDecided,
+				Text:      "Static analysis of /repo's current source decides structural clauses that are necessary for the property, for every path/call site/operand class rather than for sampled inputs. Decided: " + p.Decided + p.InheritedNote() + " Not decided: " + p.NotDecided,
 				DesignRef: "DESIGN.md §4 " + id},
 			Note:      strings.Join(p.Assume, "; "),
 			Technique: "static analysis: " + p.Technique,
